@@ -19,6 +19,18 @@ else:
     HEX_TO_BYTE = {(a + b).encode(): bytes.fromhex(a + b) for a in HEX for b in HEX}
 
 ASCII_RE = re.compile("([\x00-\x7f]+)")
+HEX_BYTES = HEX.encode()
+
+
+def _would_complete_escape(res, b):
+    # Would appending the byte `b` turn the end of `res` into a new %XX escape?
+    if b not in HEX_BYTES:
+        return False
+
+    if res[-1:] == b"%":
+        return True
+
+    return res[-2:-1] == b"%" and bytes(res[-1:]) in HEX_BYTES
 
 
 def _unquote_impl(string, only_printable=False, unsafe=None):
@@ -37,6 +49,15 @@ def _unquote_impl(string, only_printable=False, unsafe=None):
                 append(b"%")
                 append(item)
             elif unsafe is not None and b in unsafe:
+                append(b"%")
+                append(item)
+            # NOTE: when "%" must remain escaped, unquoted text must not
+            # combine with a dangling "%" into an escape that was not there
+            elif (
+                unsafe is not None
+                and b"%" in unsafe
+                and _would_complete_escape(res, b)
+            ):
                 append(b"%")
                 append(item)
             else:
